@@ -567,6 +567,67 @@ class NoPanic:
             elif t["k"] == "call":
                 self.call_site(fn, B, b, t)
 
+    def same_assert_before(self, fn, B, b, t, kind, ops):
+        """A dominating assert of the same kind on the same operand values: it did not fail on the way here, so this one cannot (terms are
+        values; a dominating site lies between the last visit of every enclosing loop header and this site, so loop variables agree)."""
+        ev = B.ev
+        if any(o[0] == "top" for o in ops if isinstance(o, tuple)):
+            return None
+        for bl in fn.blocks:
+            t1 = bl.term
+            if bl.idx == b or t1["k"] != "assert" or t1.get("akind") != kind or bl.idx not in fn.reachable() or not fn.dominates(bl.idx, b):
+                continue
+            ops1 = [ev.op(o, (bl.idx, "term")) for o in t1["aops"]]
+            if ops1 != ops:
+                continue
+            # operands that are call results / snapshots must not be recomputed in between (same policy as length snapshots)
+            btw = B._between(bl.idx, b)
+            if btw is None:
+                continue
+            if self._terms_stable(fn, ops, btw):
+                return bl.idx
+        return None
+
+    def _terms_stable(self, fn, terms, between):
+        for tm in terms:
+            for x in values.subterms(tm):
+                if isinstance(x, tuple) and x and x[0] in ("call", "len") and isinstance(x[-1], tuple) and len(x[-1]) == 2 and x[-1][0] == fn.path and x[-1][1] in between:
+                    return False
+                if isinstance(x, tuple) and x and x[0] == "len" and len(x) == 2:
+                    return False        # the length of a place, not of a value: may have changed
+        return True
+
+    def reindexed(self, fn, B, b, base, idx):
+        """`c[i]` where every path here has already passed `c[i]` with the same index value and c cannot have shrunk since."""
+        ev = B.ev
+        for b1, t1 in fn.calls():
+            if b1 == b or t1["fn"].get("trait") not in ("core::ops::index::Index", "core::ops::index::IndexMut") or not fn.dominates(b1, b):
+                continue
+            a1 = ev.call_args(b1)
+            if len(a1) != 2 or a1[0] != base or a1[1] != idx:
+                continue
+            btw = B._between(b1, b)
+            if btw is None or not self._terms_stable(fn, [idx], btw):
+                continue
+            ok = True
+            for n in btw:
+                tn = fn.blocks[n].term
+                for m in flow.mutated_bases(fn, ev, n):
+                    if tn["k"] != "call" and (m == base or values.contains(base, lambda x, m=m: x == m)):
+                        ok = False
+                if tn["k"] == "call" and n != b1:
+                    nm = callee_name(tn["fn"].get("path", ""))
+                    for ao, ty in zip(ev.call_args(n), tn.get("arg_tys", [])):
+                        if ty.startswith("&mut") and (ao == base or values.contains(base, lambda x, ao=ao: x == ao)):
+                            # a `&mut` to the container itself (or to what holds it): only growth is allowed
+                            if not (ao == base and nm in ("push", "extend_from_slice", "extend", "reserve", "reserve_exact", "insert", "append", "resize_with_grow")):
+                                ok = False
+                if not ok:
+                    break
+            if ok:
+                return b1
+        return None
+
     def assert_site(self, fn, B, b, t):
         ev = B.ev
         P = self.P
@@ -594,6 +655,9 @@ class NoPanic:
         if kind.startswith("overflow:") and rng and len(ops) == 2:
             op = kind.split(":")[1]
             a, c = ops
+            prev = self.same_assert_before(fn, B, b, t, kind, ops)
+            if prev is not None:
+                return self.rec(fn, b, kind, desc, "proved", "the same checked operation on the same values succeeded at %s, which every path here passes" % fn.loc(prev))
             if self.stats_counter(fn, b, a, c):
                 return self.rec(fn, b, kind, desc, "typed", "statistics counter increment (assumption: a counter does not wrap within a window)")
             if op == "Add":
@@ -1040,6 +1104,9 @@ class NoPanic:
         if "usize" in ity:
             if ln is not None and B.le(idx, ln, -1, b) and B.lower(idx, b) >= 0:
                 return self.rec(fn, b, "index", desc, "proved", "index < len")
+            prev = self.reindexed(fn, B, b, base, idx)
+            if prev is not None:
+                return self.rec(fn, b, "index", desc, "proved", "the same element was indexed at %s on every path here and the container has only grown since" % fn.loc(prev))
             return self.rec(fn, b, "index", desc, "open", "cannot prove %s < len(%s)" % (describe(P, idx), describe(P, base)))
         return self.rec(fn, b, "index", desc, "open", "unrecognised index type " + ity)
 
